@@ -12,9 +12,12 @@ PROP = dict(
                        # the regenerated mint / burn sites of the vault handlers are the model's (Props/C02Effects.lean, on top of C01Effects)
                        "Comdex.C02.supply_create", "Comdex.C02.supply_draw", "Comdex.C02.supply_repay", "Comdex.C02.supply_close",
                        "Comdex.C02.supply_depositAndDraw", "Comdex.C02.supply_stableCreate", "Comdex.C02.supply_stableDeposit",
-                       "Comdex.C02.supply_stableWithdraw", "Comdex.C02.supply_untouched", "Comdex.C02.vault_mint_burn_sites"],
+                       "Comdex.C02.supply_stableWithdraw", "Comdex.C02.supply_untouched", "Comdex.C02.vault_mint_burn_sites",
+                       "Comdex.C02.supply_moves_exactly", "Comdex.C02.interest_not_minted", "Comdex.C02.burn_exact_repay", "Comdex.C02.burn_exact_close",
+                       "Comdex.C02.burn_exact_stableWithdraw", "Comdex.C02.liquidation_paths_never_mint", "Comdex.C02.mint_delivers_depositAndDraw",
+                       "Comdex.C02.mint_delivers_stableDeposit", "Comdex.C02.supply_le_principal_reconfig"],
     harness_tests=["TestC01"],
-    monitors=["supply_eq_principal", "mint_delivers"],
+    monitors=["supply_eq_principal", "mint_delivers", "burn_exact", "interest_not_minted"],
     trusted_base=[KERNEL_TB, HARNESS_TB, DEC_TB, VAULT_TB, EFFECTS_TB],
     assumptions=VAULT_ASSUME + ["supply minted outside the vault module (test funding) is tracked as a ghost quantity extSupply; for an asset minted only through vaults it is zero"],
     rule="same generated histories as C01 (every sequence mixes asset decimal scales 10^0..10^18 and zero / non-zero draw-down, closing and "
